@@ -49,7 +49,7 @@ func main() {
 		cfg := progen.Config{Ops: all, Depth: 2, Consts: []int{2, 3}, Inputs: []int{0, 1}, SCS: true}
 		if c.Quick() {
 			cfg.Consts = []int{3}
-			cfg.StepOps = [][]string{{"Add", "Mul", "DivUnchecked", "Xor", "IsZero", "ToBinary3", "Select", "Hint"},
+			cfg.StepOps = [][]string{{"Add", "Mul", "Mul3", "DivUnchecked", "Xor", "IsZero", "ToBinary3", "Select", "Hint"},
 				{"Sub", "MulAcc", "Div", "Or", "Select", "Cmp", "IsZero", "AssertIsEqual", "AssertIsLessOrEqual", "FromBinary3"}}
 		}
 		progen.Enumerate(cfg, func(p *progen.Prog) bool {
@@ -166,12 +166,12 @@ func runProg(c *vh.Check, p *progen.Prog, depth int) {
 				cc.rej = fmt.Sprint(err, pan)
 			} else {
 				w, _ := witness.New(circ.P47)
-				ch := make(chan any, 3+nout)
-				for i := 0; i < 3+nout; i++ {
+				ch := make(chan any, 3+nout+progen.NCopies)
+				for i := 0; i < 3+nout+progen.NCopies; i++ {
 					ch <- 0
 				}
 				close(ch)
-				if err := w.Fill(1, 2+nout, ch); err != nil {
+				if err := w.Fill(1, 2+nout+progen.NCopies, ch); err != nil {
 					c.Fatal("witness fill: %v", err)
 				}
 				cc.w = w
@@ -213,6 +213,9 @@ func runProg(c *vh.Check, p *progen.Prog, depth int) {
 			s.vec[0].SetUint64(uint64(a[0]))
 			s.vec[1].SetUint64(uint64(a[1]))
 			s.vec[2].SetUint64(uint64(a[2]))
+			for k := 0; k < progen.NCopies; k++ {
+				s.vec[3+nout+k].SetUint64(uint64(a[k]))
+			}
 			for i := 0; i < nout; i++ {
 				if sat {
 					s.vec[3+i].SetUint64(outs[i].Uint64())
@@ -359,6 +362,7 @@ func runBig(c *vh.Check, cv ecc.ID, field *big.Int, p *progen.Prog, dom []*big.I
 						sv = append(sv, big.NewInt(0))
 					}
 				}
+				sv = append(sv, a0, a1, big.NewInt(0)) // copies of P0,S0,S1
 				try := func(sv []*big.Int) string {
 					w, err := circ.Witness(circ.Assign([]*big.Int{a0}, sv), field)
 					if err != nil {
